@@ -44,6 +44,24 @@ var Operands = []Operand{
 	{"template:mixed", "a @(lower(\"B\"))", defaultInput},
 }
 
+// RevisitTexts is the alphabet of message texts with which a revisited router is routed again: the
+// five input texts of the operand alphabet and, for each non-empty one, a second text that carries the
+// same extractable parts (words, number, phone, email, date, time, places) in another whole text - so
+// that a test can extract an equal match from a different operand. (The date keeps its time of day
+// behind it: a date without one takes the time from the clock, which the reference model reads at
+// another moment than the engine.)
+var RevisitTexts = []Operand{
+	Operands[0],
+	{"text:words:again", "@input.text", "a c b"},
+	Operands[1],
+	{"text:number+phone+email:again", "@input.text", "bob@nyaruka.com is 42, call +12065551212"},
+	Operands[2],
+	{"text:date+time:again", "@input.text", "back on 2020-05-17 at 10:30"},
+	Operands[3],
+	{"text:places:again", "@input.text", "Gisozi Gasabo Kigali"},
+	Operands[4],
+}
+
 // Atom is one switch case: a registered test with an argument vector (templates) and optionally a
 // translation of the arguments into langTr.
 type Atom struct {
